@@ -433,7 +433,13 @@ namespace xsimd
         template <size_t N, class A>
         XSIMD_INLINE batch<uint16_t, A> rotate_left(batch<uint16_t, A> const& self, requires_arch<avx512bw>) noexcept
         {
-            return _mm512_alignr_epi8(self, self, N);
+            // alignr_epi8 counts bytes and works inside each 128-bit lane: rotate whole lanes first
+            // (alignr_epi64 by 2 quadwords per lane), then shift bytes in from the following lane
+            constexpr size_t bytes = (N % batch<uint16_t, A>::size) * sizeof(uint16_t);
+            constexpr int lanes = bytes / 16;
+            __m512i lo = _mm512_alignr_epi64(self, self, (2 * lanes) % 8);
+            __m512i hi = _mm512_alignr_epi64(self, self, (2 * lanes + 2) % 8);
+            return _mm512_alignr_epi8(hi, lo, bytes % 16);
         }
         template <size_t N, class A>
         XSIMD_INLINE batch<int16_t, A> rotate_left(batch<int16_t, A> const& self, requires_arch<avx512bw>) noexcept
